@@ -879,6 +879,14 @@ func (m *Model) evalPre(n *Node, in MIn, path string, mn *MNode) {
 	default:
 		s := ""
 		switch {
+		case m.Mode == "parse" && (in.Missing || in.V.IsNil()):
+			// a nil input is not an F (Go: a nil interface value satisfies no type assertion): type mismatch
+			m.issue(n, path, "coerce", "pre", 0)
+			mn.Issues++
+			mn.Failed = true
+			m.Expect = m.Expect[:len(m.Expect)-1]
+			m.Forbid = append(m.Forbid, MCall{Node: n.ID, Kind: "pre", Idx: 0})
+			return
 		case in.Missing || in.V.IsNil():
 		case in.V.K == "s":
 			s = in.V.S
